@@ -241,6 +241,9 @@ where
                     file.lock_write().await.map_err(|e| e.error)?;
                 guard.inner_mut().set_len(length).await?;
 
+                // Records were collected newest first; return them
+                // in log order so they can be applied again to revert
+                records.reverse();
                 return Ok(records);
             }
 
